@@ -15,5 +15,7 @@ Next == /\ l <= Len(Trace)
                valid == ValidBlockProof(e.proof, e.blk, e.mode) IN
            /\ Chk(e.result # "panic" /\ e.ids # "panic", "c02_panic")
            /\ Chk(e.result = "ok" => valid, "c02_accepted_invalid_proof")
+           \* "that height's committee": the membership was asked with the reference time of the PREVIOUS block
+           /\ Chk(e.wrong_epoch = 0, "c02_committee_of_another_reference_time")
            /\ Chk((valid /\ e.canon) => e.result = "ok", "drift_rejected_valid_proof")
 =============================================================================
